@@ -82,6 +82,12 @@ def main():
     t = threading.Timer(budget, out_of_budget)
     t.daemon = True
     t.start()
+    if args.tier == 'quick' and not os.environ.get('VERIF_NO_ESCALATION'):
+        pre = common.coq_build()
+        why = common.build_broken_for(pid, pre)
+        if why:
+            ctx.escalated = True
+            ctx.notes.append('a proof obligation or generator of this property failed on this tree (%s): the search for a failing input was escalated to the thorough bounds' % '; '.join(why)[:400])
     rc = mod.check(ctx)
     t.cancel()
     sys.exit(rc)
